@@ -280,6 +280,10 @@ func parseRequestBody(c *Client, r *Request) (err error) {
 		}
 		r.SetFormDataFromValues(c.FormData)
 		r.clientFormDataMerged = true
+		r.clientMerged.formAfter = make(map[string][]string, len(c.FormData))
+		for k := range c.FormData {
+			r.clientMerged.formAfter[k] = r.FormData[k]
+		}
 	}
 
 	// handle multipart
